@@ -801,6 +801,8 @@ package cache
 
 // invalidateByLabels: deletes every key of the cut labels from every deleter; the count is the number of Delete
 // calls that reported success; on a deleter failure the unprocessed keys are put back - without panicking.
+// A key is marked as done (and thereby excluded from the put-back) only after every deleter has processed it:
+// while the deleters of a key are being called the key is not marked (C15.inv.notyet).
 
 //@ func (*InvalidationIndex).invalidateByLabels
 //@   modifies M|map[string][]string|* E|string|* G|cnt|Deleter.Delete G|delok
@@ -813,6 +815,7 @@ package cache
 //@   loop 1 invariant [C15.inv.l1] cnt == delok() - old(delok()) && cnt >= 0 && cutKeys != nil && deleted != nil
 //@   loop 2 invariant [C15.inv.l2] cnt == delok() - old(delok()) && cnt >= 0 && cutKeys != nil && deleted != nil
 //@   loop 3 invariant [C15.inv.l3] cnt == delok() - old(delok()) && cnt >= 0 && cutKeys != nil && deleted != nil
+//@   loop 3 invariant [C15.inv.notyet] !deleted[k]
 //@   replay invalidate
 
 // Well-formedness of the label index: inner label maps and registered deleters are non-nil.
